@@ -164,6 +164,12 @@ type script1 struct {
 	Cells    [][]lhcCell `json:"cells"`
 	Es       []int       `json:"es"`
 	Weights  [][2]int64  `json:"weights"`
+	// halton
+	Dims []haltonDim `json:"dims"`
+	// wor (WithoutReplacement)
+	K       int         `json:"k"`
+	Perm    bool        `json:"perm"`
+	Scripts []worScript `json:"scripts"`
 }
 
 type sampRun struct {
@@ -653,6 +659,14 @@ func replaySamplers(in *core.Lines, args []string, seed int64, sum *core.Summary
 		case "simple":
 			sum.Nontrivial++
 			r.simple()
+		case "halton":
+			if c.N > 1 {
+				sum.Nontrivial++
+			}
+			r.halton(seed)
+		case "wor":
+			sum.Nontrivial++
+			r.wor()
 		default:
 			return fmt.Errorf("line %d: unknown protocol %q", in.N, c.Proto)
 		}
